@@ -169,6 +169,13 @@ def main(argv=None):
     tier = args.tier
     workdir = os.path.join(VERIF, ".work", f"{prop}-{tier}-{os.getpid()}")
     os.makedirs(workdir, exist_ok=True)
+    # every temporary file of the run (ufo2ft itself leaves a copy of the feature text behind
+    # whenever feature compilation fails) goes below the work directory, removed at the end
+    tmpd = os.path.join(workdir, "tmp")
+    os.makedirs(tmpd, exist_ok=True)
+    os.environ["TMPDIR"] = tmpd
+    import tempfile
+    tempfile.tempdir = tmpd
     n_cases = args.cases if args.cases is not None else mod.n_cases(tier)
     budget = mod.budget_s(tier)
     jobs = max(1, min(args.jobs, n_cases)) if n_cases else 0
